@@ -173,8 +173,19 @@ def e_krige_call(gs, a, o):
     return k(a["tpos"], **kw)
 
 
+def _llt_model(gs):
+    return gs.Gaussian(latlon=True, temporal=True, var=2, len_scale=2000, anis=[1, 1, 0.25], geo_scale=gs.KM_SCALE)
+
+
+def base_llt_pos():
+    p = base_pos(latlon=True)
+    return np.array([p[0], p[1], np.linspace(1.0, 9.0, N)])
+
+
 def _srf(gs, o):
     model = gs.Gaussian(dim=2, var=2, len_scale=3, nugget=0.1 if "nugget" in o else 0.0)
+    if "latlon_temporal" in o:
+        model = _llt_model(gs)
     kw = {}
     if "trend" in o:
         kw["trend"] = _trend
@@ -191,17 +202,36 @@ def e_srf_call(gs, a, o):
     if "point_volumes" in a:
         s = gs.SRF(s.model, seed=3, mode_no=8, upscaling="coarse_graining")
         kw["point_volumes"] = a["point_volumes"]
+    if "latlon_temporal" in o:
+        return s(a["lltpos"], **kw)
     if "structured" in o:
         return s((a["gx"], a["gy"]), mesh_type="structured", **kw)
     return s(a["tpos"], **kw)
 
 
+def e_llt_krige(gs, a, o):
+    """Kriging / conditioned simulation with a lat-lon + temporal model (positions as one (3, n) array)."""
+    model = _llt_model(gs)
+    k = gs.krige.Ordinary(model, a["cond_llt"], base_field())
+    out = [k(a["lltpos"])]
+    if "condsrf" in o:
+        out.append(gs.CondSRF(k, seed=5, mode_no=8)(a["lltpos"]))
+    out.append(model.isometrize(a["lltpos"]))
+    out.append(model.anisometrize(model.isometrize(a["lltpos"])))
+    return out
+
+
 def e_condsrf_call(gs, a, o):
     k = _krige(gs, {"cond_pos": base_pos(), "cond_val": base_field()}, o)
     c = gs.CondSRF(k, seed=4, mode_no=8)
+    kw = {"post_process": False} if "no_process" in o else {}
     if "structured" in o:
-        return c((a["gx"], a["gy"]), mesh_type="structured")
-    return c(a["tpos"])
+        out = c((a["gx"], a["gy"]), mesh_type="structured", **kw)
+        c((a["gx"], a["gy"]), mesh_type="structured", seed=9, store=["f2", "rf2", "rk2"], krige_store=["kf2", True], **kw)
+        return out
+    out = c(a["tpos"], **kw)
+    c(a["tpos"], seed=9, store=["f2", "rf2", "rk2"], krige_store=["kf2", True], **kw)
+    return out
 
 
 def e_field_call(gs, a, o):
@@ -287,6 +317,13 @@ def e_model_funcs(gs, a, o):
     return out
 
 
+def _field_with_marker(o):
+    f = base_field()
+    if "no_data" in o and "normalizer" not in o:
+        f[3] = -999.0  # the no_data marker of the "no_data" option
+    return f
+
+
 def _axis_field():
     f = base_field(6).T.copy()[:6, :5] + 0.0
     f[2, 3] = 4.0  # equals the no_data value of the "no_data" option
@@ -304,7 +341,7 @@ def grid_y():
 
 ENTRIES = {
     "vario_estimate": dict(
-        roles={"pos": lambda o: base_pos(latlon="latlon_geo" in o), "field": lambda o: base_field(),
+        roles={"pos": lambda o: base_pos(latlon="latlon_geo" in o), "field": lambda o: _field_with_marker(o),
                "bin_edges": lambda o: np.array([0.0, 1500.0, 3000.0, 6000.0]) if "latlon_geo" in o else np.array([0.0, 2.0, 4.0, 8.0]),
                "mask": lambda o: np.array([0, 1] + [0] * (N - 2), dtype=float), "direction": lambda o: np.array([[1.0, 1.0], [0.0, 2.0]])},
         opts=["latlon_geo", "trend", "mean", "normalizer", "no_data", "directional"],
@@ -327,13 +364,16 @@ ENTRIES = {
                "ext_drift_t": lambda o: (np.arange(12.0) if "structured" in o else base_field() * 0.2)},
         opts=["structured", "chunk", "only_mean", "trend", "normalizer", "simple"],
         inplace=["trend", "normalizer", "simple"], call=e_krige_call),
+    "latlon_temporal": dict(
+        roles={"lltpos": lambda o: base_llt_pos(), "cond_llt": lambda o: base_llt_pos() + 0.5}, opts=["condsrf"], inplace=["condsrf"],
+        call=e_llt_krige),
     "srf_call": dict(
-        roles={"tpos": lambda o: base_pos() + 0.3, "gx": lambda o: grid_x(), "gy": lambda o: grid_y(),
+        roles={"tpos": lambda o: base_pos() + 0.3, "gx": lambda o: grid_x(), "gy": lambda o: grid_y(), "lltpos": lambda o: base_llt_pos(),
                "point_volumes": lambda o: (np.full(12, 0.5) if "structured" in o else np.full(N, 0.5))},
-        opts=["structured", "trend", "mean", "normalizer", "nugget"], inplace=["trend", "mean", "normalizer"], call=e_srf_call),
+        opts=["structured", "trend", "mean", "normalizer", "nugget", "latlon_temporal"], inplace=["trend", "mean", "normalizer", "latlon_temporal"], call=e_srf_call),
     "condsrf_call": dict(
         roles={"tpos": lambda o: base_pos() + 0.3, "gx": lambda o: grid_x(), "gy": lambda o: grid_y()},
-        opts=["structured", "trend", "normalizer", "simple"], inplace=["trend", "normalizer", "simple"], call=e_condsrf_call),
+        opts=["structured", "trend", "normalizer", "simple", "no_process"], inplace=["trend", "normalizer", "simple", "no_process"], call=e_condsrf_call),
     "field_call": dict(
         roles={"tpos": lambda o: base_pos(), "field": lambda o: base_field()},
         opts=["trend", "mean", "normalizer", "no_process"], inplace=["trend", "mean", "normalizer"], call=e_field_call),
@@ -368,7 +408,7 @@ def role_applicable(entry, role, layout, opts):
         return False  # these arguments are documented as numpy arrays
     if entry == "krige_init" and "fit_variogram" in opts and "fit_normalizer" in opts:
         return False  # the automatic fit does not converge on the sentinel data
-    if layout == "fortran" and role not in ("pos", "tpos", "cond_pos", "fields", "field2d", "y_data2", "direction", "llpos"):
+    if layout == "fortran" and role not in ("pos", "tpos", "cond_pos", "fields", "field2d", "y_data2", "direction", "llpos", "lltpos", "cond_llt"):
         return False
     if role == "direction" and ("directional" not in opts or "latlon_geo" in opts):
         return False
@@ -379,6 +419,10 @@ def role_applicable(entry, role, layout, opts):
     if role in ("gx", "gy") and entry in ("krige_call", "srf_call", "condsrf_call") and "structured" not in opts:
         return False
     if role == "tpos" and entry in ("krige_call", "srf_call", "condsrf_call") and "structured" in opts:
+        return False
+    if role == "lltpos" and entry == "srf_call" and "latlon_temporal" not in opts:
+        return False
+    if entry == "srf_call" and "latlon_temporal" in opts and (role != "lltpos" or opts & {"structured", "trend", "mean", "normalizer"}):
         return False
     if role == "fields" and "stacked" not in opts:
         return False
@@ -399,6 +443,40 @@ def role_applicable(entry, role, layout, opts):
     return True
 
 
+class StoreMonitor:
+    """Wraps Field.post_field: snapshots every array at the moment it is stored under a name; `altered()`
+    reports arrays that are still bound under that name but whose bytes changed afterwards."""
+
+    def __init__(self, gs):
+        self.cls = gs.field.Field
+        self.orig = self.cls.post_field
+        self.log = []
+
+    def __enter__(self):
+        mon = self
+
+        def post_field(fld, field, name="field", process=True, save=True):
+            out = mon.orig(fld, field, name, process, save)
+            if save:
+                mon.log.append((fld, str(name), out, out.tobytes()))
+            return out
+
+        self.cls.post_field = post_field
+        return self
+
+    def __exit__(self, *a):
+        self.cls.post_field = self.orig
+
+    def altered(self):
+        last = {}
+        for fld, name, arr, snap in self.log:
+            last[(id(fld), name)] = (fld, name, arr, snap)
+        for fld, name, arr, snap in last.values():
+            if name in fld.field_names and getattr(fld, name) is arr and arr.tobytes() != snap:
+                return "%s.%s" % (type(fld).__name__, name)
+        return None
+
+
 def run_cell(gs, cell):
     """Execute one matrix cell; returns None or (role that changed, how)."""
     entry, role, layout, opts = cell["entry"], cell["role"], cell["layout"], set(cell["opts"])
@@ -411,11 +489,14 @@ def run_cell(gs, cell):
             continue  # optional arguments are only passed when under test
         args[r] = Arg(fac(opts), layout if r == role else "f64c")
     try:
-        with warnings.catch_warnings():
+        with warnings.catch_warnings(), StoreMonitor(gs) as mon:
             warnings.simplefilter("ignore")
             e["call"](gs, {k: a.value for k, a in args.items()}, opts)
     except Exception as ex:  # noqa: BLE001
         return ("-", "exception %r" % ex)
+    bad = mon.altered()
+    if bad:
+        return ("stored:" + bad, "a result stored during the call was altered after it had been stored")
     for r, a in args.items():
         if a.changed():
             return (r, "contents changed")
